@@ -146,3 +146,13 @@ Example C16_source_example :
   /\ ImpGen.imp_regions_Index_At ix 4 = GoSem.Ret []
   /\ ImpGen.imp_regions_NewIndex [1]%Z [] = GoSem.Panics.
 Proof. eexists. vm_compute. repeat split. Qed.
+
+(* ---- the property itself, about the translated source: NewIndex, then At ---------------------------- *)
+From Bio.Proofs Require ImpProofsW.
+Theorem C16_at_exact_is_source : forall starts ends, length starts = length ends ->
+  exists ix, ImpGen.imp_regions_NewIndex starts ends = GoSem.Ret ix /\
+    forall i, ImpGen.imp_regions_Index_At ix i
+              = GoSem.Ret (map Z.of_nat (filter (fun x => (nth x starts 0 <=? i) && (i <? nth x ends 0))%Z
+                                                (seq 0 (length starts)))).
+Proof. exact ImpProofsW.regions_at_exact_src. Qed.
+Print Assumptions C16_at_exact_is_source.
